@@ -270,7 +270,7 @@ void pop3_list(arg) char *arg; { dolisting(arg,0); }
 
 substdio ssmsg; char ssmsgbuf[1024];
 
-void pop3_top(arg) char *arg;
+void dotop(arg,flagtop) char *arg; int flagtop;
 {
   int i;
   unsigned long limit;
@@ -281,7 +281,7 @@ void pop3_top(arg) char *arg;
  
   arg += scan_ulong_sat(arg,&limit);
   while (*arg == ' ') ++arg;
-  if (scan_ulong_sat(arg,&limit)) ++limit; else limit = 0;
+  if (flagtop && scan_ulong_sat(arg,&limit)) ++limit; else limit = 0;
  
   fd = open_read(m[i].fn);
   if (fd == -1) { err_nosuch(); return; }
@@ -290,6 +290,8 @@ void pop3_top(arg) char *arg;
   blast(&ssmsg,limit);
   close(fd);
 }
+void pop3_retr(arg) char *arg; { dotop(arg,0); }
+void pop3_top(arg) char *arg; { dotop(arg,1); }
 
 struct commands pop3commands[] = {
   { "quit", pop3_quit, 0 }
@@ -297,7 +299,7 @@ struct commands pop3commands[] = {
 , { "list", pop3_list, 0 }
 , { "uidl", pop3_uidl, 0 }
 , { "dele", pop3_dele, 0 }
-, { "retr", pop3_top, 0 }
+, { "retr", pop3_retr, 0 }
 , { "rset", pop3_rset, 0 }
 , { "last", pop3_last, 0 }
 , { "top", pop3_top, 0 }
